@@ -126,6 +126,33 @@ def rule_lock_reads():
     return not failing, sites, failing
 
 
+def rule_snapshot_copy():
+    """the copy constructor BackendRegistryState.__init__(state) gives the new snapshot its OWN containers: every field is bound to a fresh literal / constructor call and filled with
+    update/extend from `state`; no field is bound to an object of `state` itself (an aliased container would make changes of a discarded or later snapshot visible in others)"""
+    tree, p = parse("einx/_src/frontend/backend.py")
+    cls = find_class(tree, "BackendRegistryState")
+    sites, failing = [], []
+    init = [f for f in (cls.body if cls else []) if isinstance(f, ast.FunctionDef) and f.name == "__init__"]
+    if not init:
+        return False, [], ["einx/_src/frontend/backend.py: BackendRegistryState.__init__ not found"]
+    fields = set()
+    for n in ast.walk(init[0]):
+        if isinstance(n, (ast.Assign, ast.AugAssign, ast.AnnAssign)):
+            tg = n.targets if isinstance(n, ast.Assign) else [n.target]
+            for tt in tg:
+                if isinstance(tt, ast.Attribute) and isinstance(tt.value, ast.Name) and tt.value.id == "self":
+                    site = f"{rel(p)}:{n.lineno}:self.{tt.attr} = {ast.unparse(n.value)[:40]}"
+                    sites.append(site)
+                    fields.add(tt.attr)
+                    v = n.value
+                    fresh = isinstance(v, (ast.Dict, ast.List, ast.Set, ast.Tuple, ast.Constant)) or (isinstance(v, ast.Call) and isinstance(v.func, ast.Name) and v.func.id in ("set", "dict", "list", "tuple", "frozenset") and not v.args)
+                    if not fresh or any(isinstance(q, ast.Name) and q.id == "state" for q in ast.walk(v)):
+                        failing.append(site + " (a field of the new snapshot is not a fresh container: it may alias an object of another snapshot)")
+    if len(fields) < 5:
+        failing.append(f"{rel(p)}: fewer than 5 fields initialised in BackendRegistryState.__init__ (contract unbound)")
+    return not failing, sites, failing
+
+
 def rule_snapshot():
     """mutating underscore methods of BackendRegistryState are called only on objects freshly created by BackendRegistryState(self) in the same
     function (published snapshots are never mutated), or on self from within other underscore methods."""
